@@ -15,13 +15,15 @@ import (
 )
 
 type Case struct {
-	Content      pbt.S  // the byte stream
-	Chunks       []int  // max bytes returned by successive Read calls; 0 = stall (0,nil); cycled
-	BufSize      int    // scanner buffer size
-	Variant      string // immediate | buffered
-	FaultAt      int    // -1: none; else a non-EOF error is raised once FaultAt bytes were handed over
-	ErrWithData  bool   // the read that reaches the end/fault returns (n>0, err) instead of a separate (0, err)
-	Obs          *pbt.Obs `json:"-"`
+	Content     pbt.S    // the byte stream
+	Chunks      []int    // max bytes returned by successive Read calls; 0 = stall (0,nil); cycled
+	BufSize     int      // scanner buffer size
+	Variant     string   // immediate | buffered
+	FaultAt     int      // -1: none; else a non-EOF error is raised once FaultAt bytes were handed over
+	ErrWithData bool     // the read that reaches the end/fault returns (n>0, err) instead of a separate (0, err)
+	LongStall   int      `json:",omitempty"` // a run of this many (0, nil) reads before the StallAt-th read that hands over data ("stalls" of any length are legal)
+	StallAt     int      `json:",omitempty"`
+	Obs         *pbt.Obs `json:"-"`
 }
 
 var churnTick int
@@ -30,18 +32,19 @@ var errInjected = errors.New("injected read fault")
 
 // chunkReader hands out Content according to the chunk plan.
 type chunkReader struct {
-	data     []byte
-	limit    int
-	finalErr error
-	chunks   []int
-	ci       int
-	pos      int
-	withData bool
-	errSeen  bool
-	after    int // reads after an error was returned
-	reads    int
-	stalls   int
-	bounds   []int // positions where a read ended
+	data                        []byte
+	limit                       int
+	finalErr                    error
+	chunks                      []int
+	ci                          int
+	pos                         int
+	withData                    bool
+	errSeen                     bool
+	after                       int // reads after an error was returned
+	reads                       int
+	stalls                      int
+	bounds                      []int // positions where a read ended
+	longStall, stallAt, stalled int
 }
 
 func (r *chunkReader) Read(p []byte) (int, error) {
@@ -61,6 +64,11 @@ func (r *chunkReader) Read(p []byte) (int, error) {
 	if r.pos == r.limit {
 		r.errSeen = true
 		return 0, r.finalErr
+	}
+	if r.longStall > 0 && len(r.bounds) == r.stallAt && r.stalled < r.longStall {
+		r.stalled++
+		r.stalls++
+		return 0, nil
 	}
 	c := len(p)
 	if len(r.chunks) > 0 {
@@ -109,7 +117,7 @@ func check(c Case) error {
 		limit = c.FaultAt
 		ferr = errInjected
 	}
-	rd := &chunkReader{data: data, limit: limit, finalErr: ferr, chunks: c.Chunks, withData: c.ErrWithData}
+	rd := &chunkReader{data: data, limit: limit, finalErr: ferr, chunks: c.Chunks, withData: c.ErrWithData, longStall: c.LongStall, stallAt: c.StallAt}
 
 	var sc readahead.Scanner
 	switch c.Variant {
@@ -150,7 +158,22 @@ func check(c Case) error {
 			return fmt.Errorf("line %d: got %s want %s", i+1, pbt.Q(copies[i]), pbt.Q(want[i]))
 		}
 	}
-	// retention: slices handed out earlier still hold their contents
+	// retention: slices handed out earlier still hold their contents - also
+	// after the scanner is exhausted and another input is scanned with a new
+	// scanner (rare reads file after file while matches of earlier files are
+	// still held): a buffer handed back for reuse at end of stream must not
+	// be one the caller still holds lines of.
+	{
+		filler := bytes.Repeat([]byte("################\n"), (len(data)+2*c.BufSize)/17+2)
+		var sc2 readahead.Scanner
+		if c.Variant == "buffered" {
+			sc2 = readahead.NewBuffered(bytes.NewReader(filler), c.BufSize)
+		} else {
+			sc2 = readahead.NewImmediate(bytes.NewReader(filler), c.BufSize)
+		}
+		for sc2.Scan() {
+		}
+	}
 	if churnTick++; churnTick%512 == 0 {
 		pbt.Churn(1)
 	}
@@ -185,6 +208,7 @@ func check(c Case) error {
 		}
 	}
 	o.Label(rd.stalls > 0, "stalled-read")
+	o.Label(rd.stalled >= 100, "stall-run>=100")
 	o.Label(limit > c.BufSize && len(want) >= 2, "stream>buffer")
 	for _, w := range want {
 		o.Label(len(w) >= c.BufSize, "line>=buffer")
@@ -261,12 +285,17 @@ func gen(t *rapid.T) Case {
 		c.FaultAt = rapid.IntRange(0, len(c.Content)).Draw(t, "faultAt")
 	}
 	c.ErrWithData = rapid.Bool().Draw(t, "errWithData")
+	if rapid.IntRange(0, 11).Draw(t, "longStall") == 0 {
+		// a reader that has nothing for a long while: (0, nil) a hundred times and more in a row
+		c.LongStall = rapid.SampledFrom([]int{99, 100, 101, 150, 1000}).Draw(t, "stallRun")
+		c.StallAt = rapid.IntRange(0, 3).Draw(t, "stallAt")
+	}
 	return c
 }
 
 var spec = pbt.Spec[Case]{
 	Property: "C04", Name: "scan",
-	Rule: "content over {\\n,\\r,a,b,NUL,0xFF} (+ optional long run) x chunk plan (incl. 0-byte stalls, (n>0,err) endings) x buffer size 1..64 and 128KiB x {immediate,buffered} x optional injected fault; oracle = reference splitter on the bytes handed over, retention of returned slices, OnError exactly once, no read after error. Non-trivial: >=3 lines, >=2 reads, and a delimiter/CRLF/line split across a read boundary or stream longer than the buffer; distinct by case JSON",
+	Rule:   "content over {\\n,\\r,a,b,NUL,0xFF} (+ optional long run) x chunk plan (incl. 0-byte stalls, (n>0,err) endings) x buffer size 1..64 and 128KiB x {immediate,buffered} x optional injected fault; oracle = reference splitter on the bytes handed over, retention of returned slices, OnError exactly once, no read after error. Non-trivial: >=3 lines, >=2 reads, and a delimiter/CRLF/line split across a read boundary or stream longer than the buffer; distinct by case JSON",
 	Budget: pbt.Budget{Quick: 160000, Thorough: 4000000},
 	Gen:    gen, Check: check, Classify: classify,
 }
